@@ -476,6 +476,8 @@ class Engine:
                 return z3.Length(v) > 0
         if isinstance(v, OptV):
             return speclib_and(self.b_not(v.is_none), self.truth(ctx, v.val))
+        if isinstance(v, V.SymClosure):
+            return v.tag != 0
         if isinstance(v, PyList):
             return len(v.items) > 0
         if isinstance(v, tuple):
@@ -499,13 +501,15 @@ class Engine:
             if v.cls.lookup("__len__") is not None:
                 raise EngineLimit("truthiness through __len__ of %s" % v.cls.name)
             return True
-        if isinstance(v, (V.ClassVal, V.Closure, V.BoundMethod, V.Builtin, V.EnumV, RecV, ExcVal, V.ExtClass)):
+        if isinstance(v, (V.ClassVal, V.Closure, V.BoundMethod, V.Builtin, V.EnumV, RecV, ExcVal, V.ExtClass, V.Recorder)):
             return True
         if isinstance(v, V.Opaque):
             raise EngineLimit("truthiness of opaque value %s" % v.what)
         raise EngineLimit("truthiness of %r" % (v,))
 
     def py_eq(self, ctx: Ctx, a, b) -> Any:
+        if isinstance(a, V.SymClosure) or isinstance(b, V.SymClosure):
+            return self.py_is(ctx, a, b)
         if isinstance(a, OptV) or isinstance(b, OptV):
             if not isinstance(a, OptV):
                 a, b = b, a
@@ -826,7 +830,12 @@ class Engine:
                 if inst is not None:
                     for k, v in inst.items():
                         if k.startswith("self."):
+                            if isinstance(v, V.Kind):
+                                v = ctx.fresh_kind(k, v)
+                                self.assume_wellformed(ctx, v)
                             self_obj.fields[k[5:]] = v
+                if self_obj.fields is not None and not is_init:
+                    V.bind_owner(self_obj)
                 args[p.arg] = self_obj
                 continue
             args[p.arg] = self.make_param(ctx, finfo, contract, p.arg, p.annotation, inst)
@@ -835,7 +844,14 @@ class Engine:
         ns = NS(**{("self" if (self_obj is not None and k == all_args[0].arg) else k): v for k, v in args.items()})
         ns.__dict__["ctx"] = ctx
         if self_obj is not None and not is_init:
-            ns.__dict__["old"] = NS(**dict(self_obj.fields))  # field values at entry (for two-state postconditions)
+            from . import mutstate
+
+            ns.__dict__["old"] = mutstate.snapshot(self_obj)  # pre-state of a mutable receiver
+        for pname, pval in list(args.items()):
+            if isinstance(pval, Obj) and pval.fields is not None and pval is not self_obj:
+                from . import mutstate
+
+                ns.__dict__["old_" + pname] = mutstate.snapshot(pval)  # pre-state of a materialised (mutable) argument
         if self_obj is not None and not is_init:
             for label, inv in self.class_invariants(ctx, self_obj):
                 ctx.assume(lift_bool(inv))
@@ -884,6 +900,13 @@ class Engine:
             for label, inv in self.class_invariants(ctx, self_obj, contract_cls(self, contract, cls)):
                 ctx.oblige("%s/inv#%s" % (short(ctx.func), label), lift_bool(inv), kind="inv")
 
+    def _owns_state(self, cls) -> bool:
+        for c in cls.mro():
+            cs = self.reg.classes.get(c.qualname)
+            if cs and getattr(cs, "owns_state", False):
+                return True
+        return False
+
     def _is_mutable(self, cls) -> bool:
         for c in cls.mro():
             cs = self.reg.classes.get(c.qualname)
@@ -893,6 +916,13 @@ class Engine:
 
     def _check_raise(self, ctx: Ctx, contract: Contract, ns: NS, exc: ExcVal):
         matched = None
+        for xname, cond in getattr(contract, "raises_implies", {}).items():
+            if self.exc_matches(exc, xname):
+                ns.__dict__["exc"] = exc
+                c = self.run_spec(ctx, cond, ns)
+                ctx.oblige("%s/raises#%s" % (short(ctx.func), xname), lift_bool(c), kind="raises",
+                           info={"origin": exc.fields.get("__origin__")})
+                return
         for xname in contract.raises:
             if self.exc_matches(exc, xname):
                 matched = xname
@@ -1027,6 +1057,12 @@ class Engine:
             x = z3.FreshConst(cur.elem_sort, "x")
             new = z3.Lambda([x], z3.Or(z3.Select(cur.term, x), z3.Select(other.term, x)))
             cur.term = new
+            return
+        if isinstance(st.op, ast.Add) and isinstance(cur, PyList) and isinstance(rhs, SymSeq):
+            # list += symbolic list: the (function-allocated) list becomes a symbolic sequence
+            if not cur.fresh:
+                ctx.oblige("%s/frame#aliased-mutation" % short(ctx.func), False, kind="frame")
+            self.assign(ctx, st.target, self.lib.seq_concat(ctx, cur, rhs), env)
             return
         if isinstance(st.op, ast.Add) and isinstance(cur, PyList):
             if not cur.fresh:
@@ -1426,6 +1462,11 @@ class Engine:
         return self.lib.order(ctx, op, a, b)
 
     def py_is(self, ctx, a, b):
+        if isinstance(a, V.SymClosure) or isinstance(b, V.SymClosure):
+            c, other = (a, b) if isinstance(a, V.SymClosure) else (b, a)
+            if other is None:
+                return c.tag == 0
+            raise EngineLimit("`is` between a symbolic closure and %r" % (other,))
         if isinstance(a, OptV) or isinstance(b, OptV):
             o, other = (a, b) if isinstance(a, OptV) else (b, a)
             if other is None:
@@ -1624,6 +1665,15 @@ class Engine:
             if set(vals) != set(callee.fields):
                 raise PyRaise(ExcVal(V.ExtClass("TypeError")))
             return RecV(callee.name, {f: vals[f] for f in callee.fields})
+        if isinstance(callee, V.Recorder):
+            if kwargs:
+                raise EngineLimit("keyword arguments to a recorded callable")
+            callee.calls.items.append(tuple(args))
+            return None
+        if isinstance(callee, V.SymClosure):
+            from . import mutstate
+
+            return mutstate.call_symclosure(self, ctx, callee, args, kwargs)
         if isinstance(callee, V.Partial):
             kw = dict(callee.kwargs)
             kw.update(kwargs)
@@ -1768,6 +1818,14 @@ class Engine:
             nsd["self" if (finfo.cls is not None and not finfo.is_static and params and k == params[0]) else k] = v
         ns = NS(**nsd)
         ns.__dict__["ctx"] = ctx
+        if isinstance(nsd.get("self"), Obj) and nsd["self"].fields is not None and finfo.name != "__init__":
+            from . import mutstate
+
+            ns.__dict__["old"] = mutstate.snapshot(nsd["self"])  # pre-state of a materialised (mutable) receiver
+            if self._owns_state(nsd["self"].cls):
+                for av in bound.values():
+                    if isinstance(av, Obj) and av.fields is not None and av is not nsd["self"] and not self._owns_state(av.cls):
+                        mutstate.publish(self, ctx, av)
         callee = short(contract.qualname)
         for label, c in self.run_spec(ctx, lambda: contract.clauses("pre", ns)):
             ctx.oblige("%s/pre#%s#%s" % (short(ctx.func), callee, label), lift_bool(c), kind="pre")
@@ -1798,6 +1856,11 @@ class Engine:
                 pending_raise = True
         if pending_raise:
             raise PathEnd()  # some condition held: a normal return is excluded by the contract
+        for xname, cond in getattr(contract, "raises_implies", {}).items():
+            c = lift_bool(self.run_spec(ctx, cond, ns))
+            if self.feasible(ctx, c) and ctx.choose(2) == 1:
+                ctx.assume(c)
+                raise PyRaise(ExcVal(self.exc_class(xname)))
         for xname in contract.may_raise:
             if ctx.choose(2) == 1:
                 raise PyRaise(ExcVal(self.exc_class(xname)))
@@ -1806,6 +1869,8 @@ class Engine:
         if is_init:
             selfv = ns.self
             self.havoc_init_fields(ctx, selfv, finfo.cls)
+            if isinstance(selfv, Obj) and selfv.fields is not None:
+                V.bind_owner(selfv)
         else:
             if contract.value is not None:
                 result = self.run_spec(ctx, contract.value, ns)
@@ -1817,6 +1882,22 @@ class Engine:
                     k, _ = self.field_kind(nsd["self"].cls, fname)
                     if k is not None:
                         nsd["self"].fields[fname] = ctx.fresh_kind("havoc." + fname, k)
+                V.bind_owner(nsd["self"])
+            hv = getattr(contract.impl, "havoc", None)
+            if hv is not None:
+                # fields of materialised objects reachable from the arguments that the callee may assign
+                for hentry in self.run_spec(ctx, hv, ns):
+                    hobj, fname = hentry[0], hentry[1]
+                    if not isinstance(hobj, Obj) or hobj.fields is None:
+                        raise EngineLimit("havoc of a field of a non-materialised object")
+                    k, _ = self.field_kind(hobj.cls, fname)
+                    if len(hentry) > 2:
+                        k = hentry[2]  # the kind of the new value is given by the contract (e.g. a list that grew)
+                    if k is None:
+                        raise EngineLimit("no field kind declared for %s.%s" % (hobj.cls.qualname, fname))
+                    hobj.fields[fname] = ctx.fresh_kind("havoc." + fname, k)
+                    self.assume_wellformed(ctx, hobj.fields[fname])
+                    V.bind_owner(hobj)
         ns.__dict__["result"] = result
         if log_entry is not None:
             log_entry["result"] = result
